@@ -39,7 +39,7 @@ Step ==
      \*  C04's business, not C03's)
      /\ Report("VerifiedRule", e.enc => (wasV \/ (genuine /\ FinishOK(e))))
      /\ Report("ErrorRule", (e.a = "VFinish" /\ ~genuine) => ~FinishOK(e))
-     /\ Report("ErrorRule", (e.a = "VStart" /\ e.p # "ok") => ~StartOK(e))
+     /\ Report("ErrorRule", (e.a = "VStart" /\ e.p \notin {"ok", "sameA"}) => ~StartOK(e))
      \* a finish is accepted only when it answers an accepted start: after a rejected or out-of-order start it is refused
      /\ Report("ErrorRule", (e.a = "VFinish" /\ FinishOK(e)) => c \in sok)
      /\ Report("PlainStaysPlain", (isConn /\ ~wasV /\ e.f = "plain" /\ ~genuine) => e.class # "Timeout")
